@@ -141,7 +141,8 @@ def run(ctx):
         POP = '(call %s::pop on %s )' % (QT, Q)
         okb = True
         seen_empty = seen_word = False
-        for cond, seq, p_ in SMb.effect_sequences(lambda e: e[0] == 'write' and ('l:' + sv in e[1] or 'elem@' in e[1] or e[1].startswith('(* ')) or (e[0] == 'call' and e[1] in (POP,))):
+        ev_ = 'l:' + str((lp.get('var') or {}).get('name')) if lp.get('k') == 'rangefor' else None      # the frame element of a range-for
+        for cond, seq, p_ in SMb.effect_sequences(lambda e: e[0] == 'write' and ('l:' + sv in e[1] or 'elem@' in e[1] or e[1].startswith('(* ') or e[1] == ev_) or (e[0] == 'call' and e[1] in (POP,))):
             if boolform.implies(cond, EA) is True:
                 seen_empty = True
                 if [e for e in seq if e[0] == 'write'] and [e[3] for e in seq if e[0] == 'write'] != ['0'] or any(e[0] == 'call' for e in seq):
@@ -215,10 +216,14 @@ def run(ctx):
     def fl(op, *args):
         return '(%s %s)' % (op, ' '.join(sorted(args)))
     PER, TIM = 'f:Teakra::Btdmp::transmit_period', 'f:Teakra::Btdmp::transmit_timer'
-    REST = '(- (- %s %s) 1)' % (PER, TIM)
+    REST = '(sum %s | 1 %s)' % (PER, TIM)        # period - timer - 1 in the linear normal form of the renderer
     FRAMES = fl('*', '(- (/ %s 2) 1)' % fl('+', SIZE, '1'), PER)
     want = {fl('+', REST, FRAMES): boolform.all_of(boolform.neg(idle), LT), FRAMES: boolform.all_of(boolform.neg(idle), boolform.neg(LT))}
     others = {k: v for k, v in rets.items() if k != INF}
+    # (computed in one type throughout, the whole sum is one linear form: frames + period - timer - 1)
+    ONE = '(sum %s | 1 %s)' % (' '.join(sorted([FRAMES, PER])), TIM)
+    if ONE in others:
+        others[fl('+', REST, FRAMES)] = others.pop(ONE)
     if set(others) != set(want) or any(boolform.equivalent(others[k], want[k]) is not True for k in want):
         ctx.report(Q4, f, f['body'], 'GetMaxSkip horizon', 'horizon is not (period - timer - 1 if timer < period) + ((size + 1) / 2 - 1) * period: %s'
                    % {k[:160]: boolform.show(v)[:120] for k, v in others.items()})
